@@ -1,7 +1,7 @@
 // C15 op-level trace tie: the REAL allocator is driven through PRNG histories (arenas exclusive / shared, managed / reserved;
 // heaps bound to arenas, tagged heaps, destroyable heaps; several live threads that run in turns and exit with live blocks;
 // reclaim by allocation, by mi_collect, by mi_free; mi_heap_delete / mi_heap_destroy) and after EVERY API call the projection
-// of the real state that coq/Model/Bind.v has is dumped.  ocaml/mode_bind.ml (mode bind-trace) abstracts every dump to a
+// of the real state that coq/Model/Bind.v has is dumped.  ocaml/mode_bindtrace.ml (mode bind-trace) abstracts every dump to a
 // Bind.state, evaluates bound_inv_b / placed_inv_b on it and explains every transition by Bind.step operations.
 //
 //   t_bind <seed> <thorough 0|1> [scenario]
